@@ -6,7 +6,7 @@ import string
 from .core import rule, RuleResult
 from .model import AnalysisError, dotted, norm, walk_own
 from . import escape
-from .paths import Parents, always_exits, enumerate_paths
+from .paths import Parents, always_exits, enumerate_paths, flat_guards
 from .rules_p import validation_roots, validation_reach
 from .rules_d import fixture_ctx
 
@@ -220,16 +220,21 @@ def _cond_metaschema(ctx):
 def _cond_dispatch(kw):
     def cond(ctx):
         pe = ctx.func("parse_element")
+        from .rules_t import deref_const
         for n in walk_own(pe.body):
-            if isinstance(n, ast.For) and isinstance(n.iter, (ast.Tuple, ast.List)):
-                rows = [r for r in n.iter.elts if isinstance(r, ast.Tuple) and len(r.elts) == 2]
+            it_ = deref_const(ctx, pe, n.iter) if isinstance(n, ast.For) else None
+            if isinstance(n, ast.For) and isinstance(it_, (ast.Tuple, ast.List)):
+                rows = [r for r in it_.elts if isinstance(r, ast.Tuple) and len(r.elts) == 2]
                 for r in rows:
                     if isinstance(r.elts[0], ast.Constant) and r.elts[0].value == kw:
                         # body must guard on `keyword in schema`
                         tgt = n.target
-                        if isinstance(tgt, ast.Tuple) and n.body and isinstance(n.body[0], ast.If):
-                            t = n.body[0].test
-                            if norm(t) == f"{norm(tgt.elts[0])} in schema":
+                        if isinstance(tgt, ast.Tuple):
+                            # the call through the row's parser is guarded by `keyword in schema`
+                            calls = [x for x in walk_own(n.body) if isinstance(x, ast.Call) and norm(x.func) == norm(tgt.elts[1])]
+                            guarded = bool(calls) and all(any(norm(t_) == f"{norm(tgt.elts[0])} in schema" and pol_
+                                                            for t_, pol_ in flat_guards(Parents(n.body), c_)) for c_ in calls)
+                            if guarded:
                                 fn = norm(r.elts[1])
                                 callers = [f for f in ctx.prog.all_funcs() for s in ctx.inf.sites(f)[0]
                                            if s.callee.short == fn and s.kind == "call"]
@@ -286,11 +291,14 @@ def _cond_not_guard(ctx):
 def _cond_additional_stored(ctx):
     pe = ctx.func("parse_element")
     idx_store = idx_call = None
+    sname = pe.params[0].name
+    call_idx = []
     for i, st in enumerate(pe.body):
-        if isinstance(st, ast.Assign) and any(norm(t) == "schema['additionalProperties']" for t in st.targets):
+        if isinstance(st, ast.Assign) and any(norm(t) == f"{sname}['additionalProperties']" for t in st.targets) and idx_store is None:
             idx_store = i
-        if isinstance(st, ast.Return) and "_parse_typed" in norm(st):
-            idx_call = i
+        if any(isinstance(x, ast.Call) and dotted(x.func) == "_parse_typed" for x in ast.walk(st)):
+            call_idx.append(i)
+    idx_call = min(call_idx) if call_idx else None
     ok = idx_store is not None and idx_call is not None and idx_store < idx_call
     return ok, "parse_element stores schema['additionalProperties'] unconditionally before dispatching on type"
 
